@@ -210,6 +210,15 @@ def targeted_programs():
                     {"op": "evo_dispense", "lw": 1, "wells": W(list(range(8)), 0), "tips": T(list(range(1, 9))), "vols": {"k": "s", "x": 950}, "lc": "Trough", "label": None, "arm": I(0)},
                     {"op": "evo_dispense", "lw": 0, "wells": W([7], 2), "tips": T([8]), "vols": {"k": "s", "x": 0}, "lc": "L", "label": "nothing"}]
         progs.append(h)
+    # labware that share a name but not a geometry (script commands address by grid and site): the same wells of each, in turn
+    same = [gen.mk_plate("plate", 8, 3, 0, 3000, [1500] * 24), gen.mk_plate("plate", 4, 6, 0, 3000, [1500] * 24),
+            gen.mk_trough("plate", 6, 2, 0, 5000, [2500, 2500]), gen.mk_plate("plate", 16, 24, 0, 3000, [100] * 384)]
+    h = gen.header("evo/namesakes-of-other-geometry", "evo", Fraction(1), 950, same, flags={"comp": False, "norm": False})
+    h["ops"] = []
+    for opn in ("evo_aspirate", "evo_dispense"):
+        for k in (0, 1, 2, 3, 1, 0):
+            h["ops"].append({"op": opn, "lw": k, "wells": W([0, 1, 3], 1), "tips": T([1, 2, 4]), "vols": {"k": "l", "x": [5, 6, 7]}, "lc": "W", "label": f"labware {k}"})
+    progs.append(h)
     for name, wells, tips, vols in cases:
         for opn in ("evo_aspirate", "evo_dispense"):
             h = gen.header(f"evo/{name}-{opn}", "evo", Fraction(1), 950, lws(), flags={"comp": False, "norm": False})
